@@ -413,7 +413,26 @@ def symbolic_case(case):
     return {"ok": True, "nt": True, "ops": k, "out": "kind%d" % kind}
 
 
-FUNCS = {"symbolic_angles": symbolic_case, "rule_list_histories": list_history_case, "protocol": protocol_case, "rule_lists": rule_lists_case, "special_angles": grid_case, "grid": grid_case, "circuits": circuit_case, "circuits_idle": circuit_case, "rules": rules_case}
+def nested_control_case(case):
+    """{'outer': k1, 'inner': k2, 'q': indices, 'angles': [...]}: a U3 under TWO ControlledGate wrappers built directly (ControlledGate(U3.controlled(k2), k1)) - whether a rule takes it
+    or leaves it alone, the decomposed circuit acts like the original (phi = -lambda, so that finding D16 stays out of the picture) and keeps its width"""
+    from orquestra.quantum import circuits as C
+    from orquestra.quantum.circuits import _gates
+    th, ph = case["angles"]
+    g = _gates.ControlledGate(C.U3(th, ph, -ph).controlled(case["inner"]), case["outer"])
+    n = max(case["q"]) + 1
+    circ = C.Circuit([C.T(case["q"][-1]), g(*case["q"]), C.H(case["q"][0])], n_qubits=n)
+    try:
+        dec = decompose(circ)
+        U, V = op_by_op_unitary(circ, n), op_by_op_unitary(dec, n)
+    except Exception as e:  # noqa: BLE001
+        return {"ok": False, "msg": "decomposing / evaluating a circuit with a U3 under two nested control wrappers raises %s: %s" % (type(e).__name__, str(e)[:100]), "sig": "nested:raises"}
+    if dec.n_qubits != n or not L.is_global_phase_of_identity(U @ V.conj().T, 1e-8):
+        return {"ok": False, "msg": "a U3 under two nested control wrappers (%d + %d controls on %s): the decomposed circuit does not act like the original" % (case["outer"], case["inner"], case["q"]), "sig": "nested:action"}
+    return {"ok": True, "nt": True, "ops": 2, "out": "nested"}
+
+
+FUNCS = {"nested_controls": nested_control_case, "symbolic_angles": symbolic_case, "rule_list_histories": list_history_case, "protocol": protocol_case, "rule_lists": rule_lists_case, "special_angles": grid_case, "grid": grid_case, "circuits": circuit_case, "circuits_idle": circuit_case, "rules": rules_case}
 
 
 def partner_ops(n):
@@ -494,4 +513,6 @@ def run(run):
     sc = [{"fam": f, "kind": kind, "which": w} for f in range(len(SYM_FAMILIES)) for kind in (0, 1) for w in range(14)]
     secs.append(Section("symbolic_angles", sc, symbolic_case, horizon=600, desc="U3 / c-U3 with symbolic angle expressions over %d symbol-name families (theta/phi/lambda, alpha/beta/gamma ...), all slot permutations + mixed "
                         "expressions; decomposed symbolically, then both sides bound at two assignments" % len(SYM_FAMILIES)))
+    nc = [{"outer": o_, "inner": i_, "q": list(q_), "angles": a_} for o_, i_ in ((1, 1), (2, 1), (1, 2)) for q_ in itertools.permutations(range(o_ + i_ + 1)) for a_ in ([0.3, 0.4], [2.2, -0.9])][:: (1 if thorough else 3)]
+    secs.append(Section("nested_controls", nc, nested_control_case, horizon=600, desc="a U3 under two directly nested ControlledGate wrappers on every index order: decomposed or left alone, the action is kept"))
     run.run_sections(secs)
